@@ -9,6 +9,7 @@ import (
 	"strings"
 	"sync"
 
+	"github.com/go-sql-driver/mysql"
 	"gorm.io/gorm"
 )
 
@@ -80,7 +81,27 @@ func eventsString(ev []event) string {
 }
 
 // plan = which of the three transaction-control operations the server refuses.
-type plan struct{ beginFail, commitFail, rollbackFail bool }
+type plan struct {
+	beginFail, commitFail, rollbackFail bool
+	// beginOnce > 0 (only with beginFail): the refusal is a connection-level error of the kind
+	// a stale pooled connection produces, and only the first begin attempt after reset is
+	// refused - a second attempt, if anybody made one, would be accepted
+	beginOnce int
+}
+
+// beginOnceErr: the error of a one-shot begin refusal. database/sql itself retries a begin
+// that fails with driver.ErrBadConn, so below database/sql only the other values are used.
+func beginOnceErr(i int, belowDatabaseSQL bool) error {
+	if belowDatabaseSQL {
+		return []error{mysql.ErrInvalidConn, errWrappedInvalidConn}[i%2]
+	}
+	return []error{mysql.ErrInvalidConn, driver.ErrBadConn, errWrappedInvalidConn, errWrappedBadConn}[i%4]
+}
+
+var (
+	errWrappedInvalidConn = fmt.Errorf("c18-fakesql: begin: %w", mysql.ErrInvalidConn)
+	errWrappedBadConn     = fmt.Errorf("c18-fakesql: begin: %w", driver.ErrBadConn)
+)
 
 func (p plan) String() string {
 	f := func(b bool) string {
@@ -89,7 +110,11 @@ func (p plan) String() string {
 		}
 		return "ok"
 	}
-	return fmt.Sprintf("begin=%s commit=%s rollback=%s", f(p.beginFail), f(p.commitFail), f(p.rollbackFail))
+	b := f(p.beginFail)
+	if p.beginFail && p.beginOnce > 0 {
+		b = fmt.Sprintf("FAIL-ONCE(%q)", beginOnceErr(p.beginOnce, true).Error())
+	}
+	return fmt.Sprintf("begin=%s commit=%s rollback=%s", b, f(p.commitFail), f(p.rollbackFail))
 }
 
 var (
@@ -107,6 +132,7 @@ type server struct {
 	openTx  int // transactions begun and not yet committed / rolled back
 	conns   int // connections opened so far
 	foreign int // statements not issued by the harness steps
+	refused int // begin attempts refused since reset
 }
 
 func (s *server) reset(pl plan) {
@@ -115,6 +141,7 @@ func (s *server) reset(pl plan) {
 	s.events = s.events[:0]
 	s.nextTx = 0
 	s.foreign = 0
+	s.refused = 0
 	s.mu.Unlock()
 }
 
@@ -193,8 +220,12 @@ func (c *fconn) BeginTx(_ context.Context, _ driver.TxOptions) (driver.Tx, error
 	s := c.srv
 	s.mu.Lock()
 	defer s.mu.Unlock()
-	if s.pl.beginFail {
+	if s.pl.beginFail && (s.pl.beginOnce == 0 || s.refused == 0) {
+		s.refused++
 		s.events = append(s.events, event{typ: evBegin, ok: false})
+		if s.pl.beginOnce > 0 {
+			return nil, beginOnceErr(s.pl.beginOnce, true)
+		}
 		return nil, errBegin
 	}
 	s.nextTx++
@@ -344,8 +375,12 @@ func (p *gpool) BeginTx(_ context.Context, _ *sql.TxOptions) (gorm.ConnPool, err
 	s := p.srv
 	s.mu.Lock()
 	defer s.mu.Unlock()
-	if s.pl.beginFail {
+	if s.pl.beginFail && (s.pl.beginOnce == 0 || s.refused == 0) {
+		s.refused++
 		s.events = append(s.events, event{typ: evBegin, ok: false})
+		if s.pl.beginOnce > 0 {
+			return nil, beginOnceErr(s.pl.beginOnce, false)
+		}
 		return nil, errBegin
 	}
 	s.nextTx++
